@@ -182,7 +182,7 @@ func runSequential(r *mon.Run, idx int, rnd *rand.Rand) seqResult {
 	var resp fasthttp.Response
 	initialised := false // a Do* call or snapshot has run LBClient's lazy init
 	diverged := false    // LBClient's membership already shown to differ from the harness's
-	lostRemove := false  // a RemoveClients issued before the first call reported a wrong count
+	lostRemove := false  // a RemoveClients ran before the first call (LBClient initialises lazily): later count mismatches and calls to removed clients are attributed to it
 	var trace []string   // last few steps for the replay payload
 	note := func(s string) {
 		trace = append(trace, s)
@@ -202,11 +202,12 @@ func runSequential(r *mon.Run, idx int, rnd *rand.Rand) seqResult {
 				model[f.id] = f
 				res.adds++
 				note(fmt.Sprintf("add c%d -> %d", f.id, got))
-				if got != len(model) && !diverged && !lostRemove {
-					if initialised {
-						r.Violation(idx, "membership-count", fmt.Sprintf("AddClient returned %d, model has %d clients", got, len(model)), payload())
-					} else {
+				if got != len(model) && !diverged {
+					switch {
+					case !initialised:
 						res.preInitOff++ // AddClient before the first call counts only itself; the client is still added: not judged
+					case !lostRemove:
+						r.Violation(idx, "membership-count", fmt.Sprintf("AddClient returned %d, model has %d clients", got, len(model)), payload())
 					}
 				}
 			} else {
@@ -227,12 +228,12 @@ func runSequential(r *mon.Run, idx int, rnd *rand.Rand) seqResult {
 					lostRemove = true // only selects the violation key if a removed client is called later
 				}
 				note(fmt.Sprintf("remove %d -> %d", len(drop), got))
-				if got != len(model) && !diverged && !lostRemove {
-					if initialised {
+				if got != len(model) && !diverged {
+					switch {
+					case !initialised:
+						res.preInitOff++ // judged when (if) a later call reaches a removed client
+					case !lostRemove:
 						r.Violation(idx, "membership-count", fmt.Sprintf("RemoveClients returned %d, model has %d clients", got, len(model)), payload())
-					} else {
-						lostRemove = true // judged when (if) a later call reaches a removed client
-						res.preInitOff++
 					}
 				}
 			}
